@@ -64,6 +64,9 @@ type Job struct {
 	Cancel int           `json:"cancel,omitempty"`
 	HTML   bool          `json:"html,omitempty"`
 	Sink   SinkSpec      `json:"sink"`
+	// Reuse: render into the very same destination VALUE as the previous direct render of this process (the same
+	// connection / recorder object used again), after re-arming it with this job's Sink (healed, or failing elsewhere).
+	Reuse bool `json:"reuse,omitempty"`
 }
 
 type Call struct {
@@ -204,6 +207,23 @@ type sinkWSF struct{ b *base }
 func (s sinkWSF) Write(p []byte) (int, error)       { return s.b.write(p) }
 func (s sinkWSF) WriteString(p string) (int, error) { return s.b.write([]byte(p)) }
 func (s sinkWSF) Flush()                            { s.b.marks = append(s.b.marks, len(s.b.got)) }
+
+// the destination of the previous direct render in this process
+var lastW io.Writer
+var lastB *base
+
+// sinkFor returns the destination for a job: a new value, or - for Reuse - the previous one re-armed in place.
+func sinkFor(j *Job) (io.Writer, *base) {
+	if j.Reuse && lastB != nil && lastB.spec.SW == j.Sink.SW && lastB.spec.Flusher == j.Sink.Flusher {
+		b := lastB
+		b.spec, b.limit, b.tripped, b.zeros = j.Sink, j.Sink.Limit, false, 0
+		b.got, b.calls, b.marks = nil, nil, nil
+		return lastW, b
+	}
+	w, b := newSink(j.Sink)
+	lastW, lastB = w, b
+	return w, b
+}
 
 func newSink(spec SinkSpec) (io.Writer, *base) {
 	b := &base{spec: spec, limit: spec.Limit}
@@ -420,7 +440,7 @@ func Exec(j *Job, probes Probes) (o Obs) {
 		s, err := templ.ToGoHTML(ctx, comp)
 		return Obs{Res: Classify(err), Out: []byte(s)}
 	}
-	w, b := newSink(j.Sink)
+	w, b := sinkFor(j)
 	defer func() {
 		if r := recover(); r != nil {
 			if _, ok := r.(spin); ok {
